@@ -110,6 +110,15 @@ fn c06_consumers(v: &Messy, rep: &mut Rep) -> Result<(), String> {
     drop(tx);
     let (tx2, rx2) = sync_channel::<DltMessage>(cap);
     let det = std::thread::spawn(move || adlt::lifecycle::parse_lifecycles_buffered_from_stream(lcs_w, rx, &|m| tx2.send(m)));
+    // real consumer: the export plugin with a lifecycle selection resolves every new lifecycle id (and panics on an unknown one)
+    let with_export = v.1 % 4 == 1;
+    let sbx = crate::props::c14::Sandbox::new("c06exp");
+    let cfg = serde_json::json!({"name":"Export","exportFileName":sbx.path("e.dlt").to_str().unwrap(),"filters":[],"lifecyclesToKeep":[{"ecu":"ECUA","startTime":1,"endTime":2}]});
+    let mut export = adlt::plugins::export::ExportPlugin::from_json(cfg.as_object().unwrap()).map_err(|e| format!("export plugin: {}", e))?;
+    {
+        use adlt::plugins::plugin::Plugin;
+        export.set_lifecycle_read_handle(&lcs_r);
+    }
     // consumer: looks up the lifecycle of every message on receipt
     let mut bad = None;
     let mut got = 0;
@@ -120,6 +129,14 @@ fn c06_consumers(v: &Messy, rep: &mut Rep) -> Result<(), String> {
         let ok = matches!(lcs_r.get_one(&m.lifecycle), Some(l) if l.ecu == m.ecu);
         if !ok && bad.is_none() {
             bad = Some((m.index, m.lifecycle));
+        }
+        if ok && with_export {
+            use adlt::plugins::plugin::Plugin;
+            let mut m2 = m.clone();
+            let r = std::panic::catch_unwind(std::panic::AssertUnwindSafe(|| export.process_msg(&mut m2)));
+            if r.is_err() && bad.is_none() {
+                bad = Some((m.index, m.lifecycle));
+            }
         }
     }
     let _w = det.join().map_err(|_| "detector thread panicked".to_string())?;
